@@ -64,12 +64,12 @@ pub async fn on_notification_handler(
 ) -> Result<(), Box<dyn Error + Sync + Send>> {
     dispatch_notification!(notification, server_context, {
         sync: {
+            DidOpenTextDocument => on_did_open_text_document,
             DidChangeTextDocument => on_did_change_text_document,
+            DidCloseTextDocument => on_did_close_document,
         }
         async: {
-            DidOpenTextDocument => on_did_open_text_document,
             DidSaveTextDocument => on_did_save_text_document,
-            DidCloseTextDocument => on_did_close_document,
             DidChangeWatchedFiles => on_did_change_watched_files,
             SetTrace => on_set_trace,
             DidChangeConfiguration => on_did_change_configuration,
